@@ -160,6 +160,11 @@ class ConcurrentStreamTestSuite:
                     target=self._run_test, args=(test, process_result, route_code)
                 )
                 threads[to_queue] = runner_thread, process_result
+                # Start the worker's result here rather than in the worker:
+                # startTestRun() clears shouldStop, so doing it in the thread
+                # could undo the stop() issued below if run() is aborted
+                # before the thread got that far.
+                process_result.startTestRun()
                 runner_thread.start()
             while threads:
                 event_dict = queue.get()
@@ -181,7 +186,6 @@ class ConcurrentStreamTestSuite:
             raise
 
     def _run_test(self, test, process_result, route_code):
-        process_result.startTestRun()
         try:
             try:
                 test.run(process_result)
